@@ -52,6 +52,9 @@ func init() {
 				ctor := []string{"(*Point).SetBytes", "(*Point).SetExtendedCoordinates"}
 				c.ruleAccept(cfg, ctor)
 				c.ruleSetterAtomic(cfg, nameSet(ctor))
+				// value clauses: neutral elements, X·Y=Z·T preservation, Z=0 rejected by the importer
+				c.e9Neutral(cfg)
+				c.e9ZeroAccept(cfg)
 			}
 		},
 	})
